@@ -227,6 +227,12 @@ func bombF(depth, fan int, leaf byte, blobSize uint64, withFile bool) (*mrepo.Re
 			es = append(es, mrepo.Entry{Mode: 0o120000, Name: name, Child: blob})
 		case 's':
 			es = append(es, mrepo.Entry{Mode: 0o160000, Name: name, Child: mrepo.ID("1234567890123456789012345678901234567890")})
+		case 'm':
+			// mixed leaf: one file, one symlink and one submodule per index, so that
+			// several counters approach their capacity together (at equal pace)
+			es = append(es, mrepo.Entry{Mode: 0o100644, Name: name, Child: blob},
+				mrepo.Entry{Mode: 0o120000, Name: "l" + name, Child: blob},
+				mrepo.Entry{Mode: 0o160000, Name: "s" + name, Child: mrepo.ID("1234567890123456789012345678901234567890")})
 		}
 	}
 	cur := r.AddTree(es)
@@ -436,10 +442,13 @@ func c05Worker(sh *explore.Shard) {
 	}
 	for d := 0; d <= maxDepth; d++ {
 		for fan := 1; fan <= 3; fan++ {
-			for _, leaf := range []byte{'f', 'l', 's'} {
+			for _, leaf := range []byte{'f', 'l', 's', 'm'} {
 				for _, bs := range sizesAlpha {
-					if leaf == 's' && bs != sizesAlpha[0] {
+					if (leaf == 's' || leaf == 'm') && bs != sizesAlpha[0] {
 						continue
+					}
+					if leaf == 'm' && fan == 3 && narrowBuild() {
+						continue // the 9-entry leaf tree is longer than the narrowed size counter can express
 					}
 					if leaf == 'l' && bs > 4096 {
 						continue
@@ -610,6 +619,6 @@ func c05Parent(prop, tier string) int {
 
 func init() {
 	Registry["C05"] = &Check{Level: "exploration", Worker: c05Worker, Parent: c05Parent, QuickBudget: 60 * time.Second, ThoroughBudget: 10 * time.Minute,
-		Rule:        "(1) arithmetic law on ALL operand pairs of the 8-bit copy and (thorough) all 2^32 pairs of the 16-bit copy of counts.go (generated from the current file, overlaid into the whole program), and on the complete cross product of a boundary alphabet at real width; (2) bomb family depth 0..70 x fan-out 1..3 x leaf kind x blob size straddling 2^32 (virtual blobs), sums of 1..5 large blobs, scanned in-process and compared key by key with min(true, capacity); the narrowed build additionally scans every tree DAG of the C04 quick family; (3) every saturated quantity must render as the infinity sign with 30 exclamation marks at thresholds 0,1,30,1e9 and as the capacity in JSON v1/v2; (4) the depth-64 bomb must request each distinct object exactly once. non-trivial = operand value rows / scenarios in which at least one quantity saturates",
+		Rule:        "(1) arithmetic law on ALL operand pairs of the 8-bit copy and (thorough) all 2^32 pairs of the 16-bit copy of counts.go (generated from the current file, overlaid into the whole program), and on the complete cross product of a boundary alphabet at real width; (2) bomb family depth 0..70 x fan-out 1..3 x leaf kind (files, symlinks, submodules, all three at equal pace) x blob size straddling 2^32 (virtual blobs), sums of 1..5 large blobs, scanned in-process and compared key by key with min(true, capacity); the narrowed build additionally scans every tree DAG of the C04 quick family; (3) every saturated quantity must render as the infinity sign with 30 exclamation marks at thresholds 0,1,30,1e9 and as the capacity in JSON v1/v2; (4) the depth-64 bomb must request each distinct object exactly once. non-trivial = operand value rows / scenarios in which at least one quantity saturates",
 		Assumptions: []string{"the narrowed copy changes only the two type definitions and the MaxUint constants of counts.go", "virtual blobs: git-sizer never reads blob contents, only the size column"}}
 }
